@@ -598,6 +598,9 @@ def simplify(t, facts, _cache=None):
                 ilen = lin_term(linearize(inner.a[2]) - linearize(a))
                 if proved(binop("and", binop(">=", c, C(0)), binop("<=", d, ilen))):
                     return T("slice", inner.a[0], lin_term(linearize(a) + linearize(c)), lin_term(linearize(a) + linearize(d)), ty="bytes")
+            if unclamped(inner) and is_const(d, None) and proved(binop(">=", c, C(0))):
+                # b[a:e][c:] == b[a+c:e] for an exact inner slice (both empty when a+c > e)
+                return T("slice", inner.a[0], lin_term(linearize(a) + linearize(c)), inner.a[2], ty="bytes")
             return x
         if x.k == "gamma" and x.a[0].k == "un" and x.a[0].a[0] == "bool":
             v = x.a[0].a[1]
